@@ -44,7 +44,8 @@ clean()
 ok = res["demo_on_clean_tree"] == "pass" and res["builds_with_patch"] and res.get("existing_tests_with_patch", "pass") == "pass" and res["demo_with_patch"].startswith("fail")
 print(json.dumps(res, indent=1), "CONFIRMED" if ok else "REJECTED")
 if ok:
-    d = f"/verif/seeded/{prop}-{k}"
+    rnd = os.environ.get("ROUND", "")
+    d = f"/verif/seeded/{prop}-{k}" if not rnd else f"/verif/seeded/{prop}-r{rnd}-{k}"
     os.makedirs(d, exist_ok=True)
     shutil.copy(f"{out}/patch{k}.diff", f"{d}/patch.diff")
     shutil.copy(f"{out}/{demo}", f"{d}/{demo}")
